@@ -59,6 +59,72 @@ def _isinstance_op(ts, subject):
     return None
 
 
+OPERATOR_FUNCS = {
+    "add": ("Add", False), "sub": ("Sub", False), "mul": ("Mult", False), "truediv": ("Div", False), "floordiv": ("FloorDiv", False),
+    "mod": ("Mod", False), "pow": ("Pow", False), "lshift": ("LShift", False), "rshift": ("RShift", False), "or_": ("BitOr", False),
+    "xor": ("BitXor", False), "and_": ("BitAnd", False), "matmul": ("MatMult", False),
+    "eq": ("cmp:Eq", False), "ne": ("cmp:NotEq", False), "lt": ("cmp:Lt", False), "le": ("cmp:LtE", False), "gt": ("cmp:Gt", False), "ge": ("cmp:GtE", False),
+    "is_": ("cmp:Is", False), "is_not": ("cmp:IsNot", False), "contains": ("cmp:In", True),
+    "pos": ("UAdd", False), "neg": ("USub", False), "not_": ("Not", False), "invert": ("Invert", False), "inv": ("Invert", False),
+}
+
+
+def _lambda_op(model, site):
+    """('op name', param order) of a module-level ``lambda a, b: a <op> b`` found by its site."""
+    modname, line, col = site
+    mod = model.modules.get(modname.split(".")[0]) if modname in model.modules else None
+    if mod is None:
+        return None
+    for sub in ast.walk(mod.tree):
+        if isinstance(sub, ast.Lambda) and sub.lineno == line and sub.col_offset == col:
+            params = [a.arg for a in sub.args.args]
+            b = sub.body
+            if isinstance(b, ast.BinOp) and isinstance(b.left, ast.Name) and isinstance(b.right, ast.Name):
+                return type(b.op).__name__, [params.index(b.left.id), params.index(b.right.id)]
+            if isinstance(b, ast.UnaryOp) and isinstance(b.operand, ast.Name):
+                return type(b.op).__name__, [params.index(b.operand.id)]
+            if isinstance(b, ast.Compare) and len(b.ops) == 1 and isinstance(b.left, ast.Name) and isinstance(b.comparators[0], ast.Name):
+                return "cmp:" + type(b.ops[0]).__name__, [params.index(b.left.id), params.index(b.comparators[0].id)]
+    return None
+
+
+def undispatch(model, t, opname, op_subject):
+    """Rewrite ``TABLE[type(<op>)](a, b)`` / ``TABLE.get(type(<op>))(a, b)`` into ('op', ...) for the row ``opname``.
+
+    ``op_subject``: the term of the operator node (``node.op`` or the loop variable over ``node.ops``).
+    """
+    if not isinstance(t, tuple) or not t:
+        return t
+    if t[0] == "call":
+        callee = t[1]
+        table, key = None, None
+        if callee[0] == "idx":
+            table, key = callee[1], callee[2]
+        elif callee[0] == "call" and callee[1][0] == "attr" and callee[1][2] == "get" and callee[2]:
+            table, key = callee[1][1], callee[2][0]
+        if table is not None and table[0] == "display" and table[1] == "dict":
+            ks = strip_sites(key)
+            is_type_of = (ks[0] == "call" and ks[1] == ("builtin", "type") and ks[2] == (strip_sites(op_subject),)) or ks == ("attr", strip_sites(op_subject), "__class__")
+            if is_type_of:
+                for k_, v_ in table[2]:
+                    if k_ == ("attr", ("module", "ast"), opname):
+                        args = [undispatch(model, a, opname, op_subject) for a in t[2]]
+                        if v_[0] == "attr" and v_[1] == ("module", "operator") and v_[2] in OPERATOR_FUNCS:
+                            name, swapped = OPERATOR_FUNCS[v_[2]]
+                            if swapped:
+                                args = args[::-1]
+                            return ("op", name, tuple(args))
+                        if v_[0] == "lambda":
+                            lo = _lambda_op(model, v_[1])
+                            if lo is not None and len(lo[1]) == len(args):
+                                return ("op", lo[0], tuple(args[i] for i in lo[1]))
+                        return ("unk", "dispatch:" + show(v_, 40))
+                return ("unk", "no-row:" + opname)
+    if t[0] in ("phi",):
+        return (t[0], tuple(undispatch(model, x, opname, op_subject) for x in t[1]))
+    return t
+
+
 def optable(run, model, rule="C06.optable"):
     """Every operator class of the running interpreter has a row applying that operator to the visited operands."""
     # ---- unary / binary
@@ -76,6 +142,13 @@ def optable(run, model, rule="C06.optable"):
                 ops = _isinstance_op(ts, subject)
                 if ops is not None:
                     return name in ops
+                # ``TABLE.get(type(node.op)) is None`` / ``type(node.op) not in TABLE``: is there a row for this operator?
+                if ts[0] == "op" and ts[1] in ("cmp:Is", "cmp:IsNot") and ts[2][1] == ("const", "None") and ts[2][0][0] == "call" and ts[2][0][1][0] == "attr" and ts[2][0][1][2] == "get" and ts[2][0][1][1][0] == "display":
+                    present = any(k_ == ("attr", ("module", "ast"), name) for k_, v_ in ts[2][0][1][1][2])
+                    return (not present) if ts[1] == "cmp:Is" else present
+                if ts[0] == "op" and ts[1] in ("cmp:In", "cmp:NotIn") and ts[2][1][0] == "display" and ts[2][1][1] == "dict":
+                    present = any(k_ == ("attr", ("module", "ast"), name) for k_, v_ in ts[2][1][2])
+                    return present if ts[1] == "cmp:In" else (not present)
                 return _placeholder_false(t)
 
             feas = [p for p in ps if tables.feasible(p, ev)]
@@ -88,7 +161,7 @@ def optable(run, model, rule="C06.optable"):
                 if p.outcome is None or p.outcome[0] != "return":
                     bad = "the operator %s is not handled (%s)" % (name, tables.classify(p))
                 else:
-                    rt = p.outcome[1]
+                    rt = undispatch(model, p.outcome[1], name, subject)
                     want_ops = tuple(("attr", NODE, o) for o in operands)
                     got = None
                     if rt[0] == "op" and rt[1] == name:
@@ -96,7 +169,7 @@ def optable(run, model, rule="C06.optable"):
                     if got != want_ops:
                         bad = "for ast.%s the method computes %s, expected the operator %s applied to the re-computed %s in that order" % (name, show(strip_sites(rt), 90), name, "/".join(operands))
                     else:
-                        stored = [vt for tt, vt, n in p.stores if tt == ("idx", ("attr", ("param", "self"), "recomputed_values"), NODE)]
+                        stored = [undispatch(model, vt, name, subject) for tt, vt, n in p.stores if tt == ("idx", ("attr", ("param", "self"), "recomputed_values"), NODE)]
                         if stored != [rt]:
                             bad = "the value stored for the node differs from the value returned"
             run.check(bad is None, rule, construct, "ast.%s -> %s(%s)" % (name, name, ", ".join(operands)), bad or "", fi.loc(), None, name)
@@ -165,7 +238,8 @@ def optable(run, model, rule="C06.optable"):
         results = set()
         for p in feas:
             r = p.env.get("result") or p.env.get("comparison")
-            cands = [v for k, v in p.env.items() if v[0] == "op" and v[1].startswith("cmp:") and len(v[2]) == 2 and _visit_of(v[2][1]) is not None]
+            cands = [undispatch(model, v, name, OP) for k, v in p.env.items()]
+            cands = [v for v in cands if v[0] == "op" and v[1].startswith("cmp:") and len(v[2]) == 2 and _visit_of(v[2][1]) is not None]
             if not cands:
                 bad = "ast.%s is not computed on some path" % name
                 continue
